@@ -1866,6 +1866,28 @@ func (d *Data) SendSerializedBlock(w http.ResponseWriter, x, y, z int32, v []byt
 		return fmt.Errorf("can't encode JPEG: expected internal block data to be JPEG, was %s instead", format)
 	}
 
+	// ignore first byte
+	start := 1
+	if checksum == dvid.CRC32 {
+		start += 4
+	}
+
+	// Do any adjustment of sent data based on compression request, before anything
+	// is written so that an unreadable block is reported and not half sent.
+	var data []byte
+	if compression == "uncompressed" {
+		var err error
+		data, _, err = dvid.DeserializeData(v, true)
+		if err != nil {
+			return fmt.Errorf("unable to deserialize block (%d,%d,%d): %v", x, y, z, err)
+		}
+	} else {
+		if len(v) < start {
+			return fmt.Errorf("stored block (%d,%d,%d) is too short: %d bytes", x, y, z, len(v))
+		}
+		data = v[start:]
+	}
+
 	// Send block coordinate and size of data.
 	if err := binary.Write(w, binary.LittleEndian, x); err != nil {
 		return err
@@ -1875,24 +1897,6 @@ func (d *Data) SendSerializedBlock(w http.ResponseWriter, x, y, z int32, v []byt
 	}
 	if err := binary.Write(w, binary.LittleEndian, z); err != nil {
 		return err
-	}
-
-	// ignore first byte
-	start := 1
-	if checksum == dvid.CRC32 {
-		start += 4
-	}
-
-	// Do any adjustment of sent data based on compression request
-	var data []byte
-	if compression == "uncompressed" {
-		var err error
-		data, _, err = dvid.DeserializeData(v, true)
-		if err != nil {
-			return err
-		}
-	} else {
-		data = v[start:]
 	}
 	n := len(data)
 	if err := binary.Write(w, binary.LittleEndian, int32(n)); err != nil {
